@@ -13,7 +13,7 @@ macro_rules! for_all_est {
     ($f:ident, $($args:expr),*) => {
         $f::<average::Mean>($($args),*); $f::<average::Variance>($($args),*); $f::<average::Skewness>($($args),*);
         $f::<average::Kurtosis>($($args),*); $f::<average::Moments4>($($args),*); $f::<M5>($($args),*); $f::<M6>($($args),*);
-        $f::<M8>($($args),*); $f::<M10>($($args),*); $f::<M7>($($args),*); $f::<M9>($($args),*); $f::<M12>($($args),*); $f::<average::Min>($($args),*); $f::<average::Max>($($args),*);
+        $f::<M8>($($args),*); $f::<M10>($($args),*); $f::<M7>($($args),*); $f::<M9>($($args),*); $f::<M12>($($args),*); $f::<M3>($($args),*); $f::<M13>($($args),*); $f::<average::Min>($($args),*); $f::<average::Max>($($args),*);
     };
 }
 macro_rules! for_all_pair {
@@ -171,7 +171,9 @@ fn c11_hist<H: Hst>(out: &mut Out, tier: &str, rng: &mut Rng) {
         let mut a = base.clone();
         let na = rng.below(40);
         for _ in 0..na { let _ = a.add_(rng.normal() * 2.0); }
-        let mut b = base.clone();
+        // the same edges as numbers, built another way: zeros of the other sign
+        let base_b = if rep % 2 == 1 { let e: Vec<f64> = base.ranges_().iter().map(|x| if *x == 0.0 { -*x } else { *x }).collect(); H::fr(e).unwrap() } else { base.clone() };
+        let mut b = base_b.clone();
         let nb = rng.below(40);
         for _ in 0..nb { let _ = b.add_(rng.normal() * 2.0); }
         let (pa, pb) = (words(&a), words(&b));
@@ -229,7 +231,9 @@ fn expect_f(out: &mut Out, ty: &str, accs: &[Acc], op: &str, want: &str, n: usiz
 
 /// the empty estimator, reached in different ways (all of them must behave as `new()` from then on)
 fn empty_variant<E: Est>(k: usize) -> E {
-    match k % 8 {
+    match k % 10 {
+        8 => E::from_par(&[], &[]),                                    // a parallel collect of nothing
+        9 => E::from_par(&[1.0, -2.0, 3.5], &[false, false, false]),   // ... of items that are all filtered away
         7 => { let e = E::default(); e.roundtrip().unwrap_or(e) }      // the empty estimator after a serde round trip (where it can be written)
         0 => E::new(),
         1 => E::default(),
@@ -267,13 +271,13 @@ fn c16_est<E: Est>(out: &mut Out, tier: &str, rng: &mut Rng) {
             let d = &d[..n];
             let variant = out.case as usize;
             let mut e: E = empty_variant(variant);
-            out.x(acc_words(&e.accessors()) == acc_words(&E::new().accessors()), || format!("{}: the empty estimator built by route {} reports {:?}", ty, variant % 8, acc_words(&e.accessors())));
+            out.x(acc_words(&e.accessors()) == acc_words(&E::new().accessors()), || format!("{}: the empty estimator built by route {} reports {:?}", ty, variant % 10, acc_words(&e.accessors())));
             feed(out, &mut e, d, if variant % 3 == 1 { Trace::None } else { Trace::All }, rng);
             let accs = observe(out, &e);
-            let ctx = format!("{:?} (empty estimator built by route {})", d, variant % 8);
+            let ctx = format!("{:?} (empty estimator built by route {})", d, variant % 10);
             // nothing may panic except standardized_moment(p>=3) with zero variance
             for a in &accs {
-                let allowed = a.op.starts_with("standardized_moment:") && !spread_nonzero(d) && a.op != "standardized_moment:0" && a.op != "standardized_moment:1" && a.op != "standardized_moment:2";
+                let allowed = n >= 1 && a.op.starts_with("standardized_moment:") && !spread_nonzero(d) && a.op != "standardized_moment:0" && a.op != "standardized_moment:1" && a.op != "standardized_moment:2";
                 out.x(a.val != Val::Panic || allowed, || format!("{}.{} panicked with n={} ({})", ty, a.op, n, ctx));
             }
             if n == 0 {
@@ -304,7 +308,7 @@ fn c16_est<E: Est>(out: &mut Out, tier: &str, rng: &mut Rng) {
             let mut e: E = empty_variant(variant);
             feed(out, &mut e, &d, if k <= 7 { Trace::All } else { Trace::Sparse }, rng);
             let accs = observe(out, &e);
-            let ctx = format!("constant stream of {} x {:?} (empty estimator built by route {})", k, x, variant % 8);
+            let ctx = format!("constant stream of {} x {:?} (empty estimator built by route {})", k, x, variant % 10);
             if let Some(a) = accs.iter().find(|a| a.op == "mean") { out.x(a.val == Val::F(x) || (x == 0.0 && a.val.f() == 0.0), || format!("{}.mean of {} is {:?}", ty, ctx, a.val)); }
             for op in ["population_variance", "variance_of_mean", "error", "error_mean", "skewness", "kurtosis", "central_moment:1", "central_moment:2", "central_moment:3", "central_moment:4", "central_moment:5", "central_moment:8"] { expect_f(out, ty, &accs, op, "zero", k, &ctx); }
             if let Some(a) = accs.iter().find(|a| a.op == "min" || a.op == "max") { out.x(a.val.f() == x, || format!("{}.{} of {} is {:?}", ty, a.op, ctx, a.val)); }
@@ -447,7 +451,7 @@ fn c17_est<E: Est>(out: &mut Out, tier: &str, rng: &mut Rng) {
                 }
                 if a.op == "error" || a.op == "error_mean" { out.x(!v.is_nan(), || format!("{}.{} is NaN (not a real number) for {:?}", E::NAME, a.op, &d[..d.len().min(12)])); }
                 if a.op == "mean" {
-                    let slack = 12.0 * n as f64 * 2f64.powi(-53) * m;
+                    let slack = 12.0 * n as f64 * 2f64.powi(-53) * m + 4.0 * n as f64 * 5e-324;
                     out.x(v >= mn - slack && v <= mx + slack, || format!("{}.mean = {:?} outside [{:?},{:?}] (+-{:?}) tree {}", E::NAME, v, mn, mx, slack, t.shape()));
                 }
             }
@@ -473,7 +477,7 @@ fn c17_lopsided<E: Est>(out: &mut Out, tier: &str, rng: &mut Rng) {
                     out.x(v >= 0.0, || format!("{}.{} = {:?} < 0 for tree {}", E::NAME, a.op, v, t.shape()));
                 }
                 if a.op == "mean" {
-                    let slack = 12.0 * d.len() as f64 * 2f64.powi(-53) * m;
+                    let slack = 12.0 * d.len() as f64 * 2f64.powi(-53) * m + 4.0 * d.len() as f64 * 5e-324;
                     out.x(v >= mn - slack && v <= mx + slack, || format!("{}.mean = {:?} outside [{:?},{:?}] (+-{:?}) tree {} first chunk starts {:?}", E::NAME, v, mn, mx, slack, t.shape(), &d[..3.min(d.len())]));
                 }
             }
@@ -498,6 +502,22 @@ fn c17_pairs(out: &mut Out, tier: &str, rng: &mut Rng) {
             }
         }
         // weighted: mean inside the hull, effective_len in [1, len]
+        // weights whose sum is subnormal: only the hull of the weighted mean is asserted (Σw² underflows by design)
+        if r % 7 == 3 {
+            let wsub: Vec<f64> = (0..n).map(|_| if rng.unit() < 0.2 { 0.0 } else { 5e-324 * (1 + rng.below(1 << 20)) as f64 }).collect();
+            let dsub: Vec<(f64, f64)> = xs.iter().cloned().zip(wsub.iter().cloned()).collect();
+            let mut wm = WeightedMean::new();
+            pfeed(out, &mut wm, &dsub, if n <= 10 { Trace::All } else { Trace::None }, rng);
+            let contributing: Vec<f64> = dsub.iter().filter(|p| p.1 > 0.0).map(|p| p.0).collect();
+            if !contributing.is_empty() {
+                let (mn, mx) = (contributing.iter().cloned().fold(f64::INFINITY, f64::min), contributing.iter().cloned().fold(f64::NEG_INFINITY, f64::max));
+                let m = xs.iter().map(|x| x.abs()).fold(0.0, f64::max);
+                // a subnormal weight carries few significant bits: w/W is rounded to 2^-k relative, k = bits of W
+                let slack = (12.0 * n as f64 * 2f64.powi(-53) + n as f64 * 2f64.powi(-18)) * m.max(mx - mn);
+                let v = wm.mean();
+                out.x(v >= mn - slack && v <= mx + slack, || format!("weighted mean {:?} outside [{:?},{:?}] for subnormal weights {:?}", v, mn, mx, &dsub[..dsub.len().min(6)]));
+            }
+        }
         let ws: Vec<f64> = if r % 3 == 0 { (0..n).map(|_| if rng.unit() < 0.2 { 0.0 } else { 10f64.powf(rng.range(-6.0, 6.0)) }).collect() }
                            else { crate::props_pair::weights(rng, n, r % crate::props_pair::WEIGHT_PATTERNS) };
         let dw: Vec<(f64, f64)> = xs.iter().cloned().zip(ws.iter().cloned()).collect();
@@ -509,7 +529,7 @@ fn c17_pairs(out: &mut Out, tier: &str, rng: &mut Rng) {
             let mn = contributing.iter().cloned().fold(f64::INFINITY, f64::min);
             let mx = contributing.iter().cloned().fold(f64::NEG_INFINITY, f64::max);
             let m = xs.iter().map(|x| x.abs()).fold(0.0, f64::max);
-            let slack = 12.0 * n as f64 * 2f64.powi(-53) * m;
+            let slack = 12.0 * n as f64 * 2f64.powi(-53) * m + 4.0 * n as f64 * 5e-324;
             let wm = w.weighted_mean();
             out.x(wm >= mn - slack && wm <= mx + slack, || format!("weighted mean {:?} outside [{:?},{:?}] for {:?}", wm, mn, mx, &dw[..dw.len().min(8)]));
             let el = w.effective_len();
@@ -537,7 +557,7 @@ fn c17_pairs_lopsided(out: &mut Out, tier: &str, rng: &mut Rng) {
         let contributing: Vec<f64> = dw.iter().filter(|p| p.1 > 0.0).map(|p| p.0).collect();
         let n = dw.len();
         let m = dw.iter().map(|p| p.0.abs()).fold(0.0, f64::max);
-        let slack = 12.0 * n as f64 * 2f64.powi(-53) * m;
+        let slack = 12.0 * n as f64 * 2f64.powi(-53) * m + 4.0 * n as f64 * 5e-324;
         if !contributing.is_empty() {
             let mn = contributing.iter().cloned().fold(f64::INFINITY, f64::min);
             let mx = contributing.iter().cloned().fold(f64::NEG_INFINITY, f64::max);
@@ -589,6 +609,8 @@ pub fn c17(out: &mut Out, tier: &str, rng: &mut Rng) {
     c17_lopsided::<average::Kurtosis>(out, tier, rng); c17_lopsided::<average::Moments4>(out, tier, rng);
     c17_pairs(out, tier, rng);
     c17_pairs_lopsided(out, tier, rng);
+    // a far outlier added at a huge count, data at the top of the property's range (|x| <= 1e150)
+    for (d, x) in HUGE_BASES_VAR { huge_counts::<average::Variance>(out, d, x); huge_counts::<average::Mean>(out, d, x); }
     c17_hist::<H1>(out, tier, rng); c17_hist::<H3>(out, tier, rng); c17_hist::<H10>(out, tier, rng); c17_hist::<H100>(out, tier, rng);
     c17_hist::<H5>(out, tier, rng); c17_hist::<H7>(out, tier, rng); c17_hist::<H16>(out, tier, rng); c17_hist::<H17>(out, tier, rng); c17_hist::<H255>(out, tier, rng);
 }
@@ -599,13 +621,18 @@ use crate::concat::{Four, MeanMax, ShortNonHeadline, VarSkew};
 use average::{Estimate, Kurtosis, Max, Mean, Min, Quantile, Skewness, Variance};
 
 fn c20_est<E: Est>(out: &mut Out, tier: &str, rng: &mut Rng) {
-    for _ in 0..(if tier == "thorough" { 120 } else { 30 }) {
+    for rep in 0..(if tier == "thorough" { 120 } else { 36 }) {
         if !out.next_case() { continue; }
         let cap = if rng.unit() < 0.1 { 3000 } else { 30 }; let mut n = rng.below(cap);
         // lengths around the powers of two (what a buffered or blocked ingestion path would use)
         if rng.unit() < 0.2 { n = *rng.pick(&BLOCK_LENS[..27]); }
+        // every sample size below the thresholds of the statistics, every time
+        if rep < 7 { n = rep; }
         let (d, _) = if E::ORDER >= 8 { dataset_in(rng, n.max(1), 1e9, -20.0, 20.0, FAMILIES) } else { dataset(rng, n.max(1), 1e9) };
-        let d = &d[..n];
+        let mut d = d[..n].to_vec();
+        // now and then a NaN or an infinity in the stream (all paths must still agree bit for bit)
+        if n > 0 && rep >= 7 && rng.unit() < 0.15 { let i = rng.below(n); d[i] = *rng.pick(&[f64::NAN, f64::INFINITY, f64::NEG_INFINITY]); if n > 2 && rng.unit() < 0.5 { d[(i + n / 2) % n] = f64::NEG_INFINITY; } }
+        let d = &d[..];
         let mut by_add = E::new();
         if n <= 10 { feed(out, &mut by_add, d, Trace::All, rng); } else { for x in d { by_add.add(*x); } }
         let want = words(&by_add);
@@ -624,7 +651,7 @@ fn c20_est<E: Est>(out: &mut Out, tier: &str, rng: &mut Rng) {
         }
         // the same through iterators that do not know their length, and starting from default()
         out.x(words(&E::from_iter_lazy(d)) == want, || format!("{}: collect from a filtered iterator differs from add loop on {:?}", E::NAME, &d[..d.len().min(8)]));
-        for kind in 0..3 {
+        for kind in 0..4 {
             let mut e = E::default();
             e.extend_lazy(&d[..i], kind); e.extend_val(&d[i..j]); e.extend_lazy(&d[j..], kind + 1);
             out.x(words(&e) == want, || format!("{}: default() then extend from lazily sized iterators (kind {}) split {}|{}|{} differs from add loop: {} vs {}", E::NAME, kind, i, j - i, n - j, words(&e), want));
@@ -650,6 +677,27 @@ fn c20_est<E: Est>(out: &mut Out, tier: &str, rng: &mut Rng) {
         }
         observe(out, &by_add);
         out.note(E::NAME);
+    }
+}
+
+/// long sequences (beyond 1024, 2048, 4096 items) whose running mean turns NaN early: every path must still see every item
+fn c20_long_nan<E: Est>(out: &mut Out, _tier: &str, rng: &mut Rng) {
+    for (k, &n) in [1500usize, 3000, 5000].iter().enumerate() {
+        if !out.next_case() { continue; }
+        let mut d: Vec<f64> = (0..n).map(|_| rng.normal()).collect();
+        match k { 0 => d[3] = f64::NAN, 1 => { d[10] = f64::INFINITY; d[700] = f64::NEG_INFINITY; } _ => { d[2047] = f64::NAN; } }
+        let mut by_add = E::new(); for x in &d { by_add.add(*x); }
+        let want = words(&by_add);
+        let h = n / 3;
+        let cands: Vec<(&str, E)> = vec![
+            ("collect by value", E::from_iter_val(&d)), ("collect by reference", E::from_iter_ref(&d)), ("collect from a filtered iterator", E::from_iter_lazy(&d)),
+            ("extend by value", { let mut e = E::new(); e.extend_val(&d); e }), ("extend by reference", { let mut e = E::default(); e.extend_ref(&d); e }),
+            ("collect + extend", { let mut e = E::from_iter_val(&d[..h]); e.extend_ref(&d[h..]); e }),
+        ];
+        for (nm, e) in &cands {
+            out.x(words(e) == want && e.len() == by_add.len(), || format!("{}: {} of {} items with a non-finite value early on differs from the add loop: len {:?} vs {:?}", E::NAME, nm, n, e.len(), by_add.len()));
+        }
+        out.note(&format!("{}:long-nan", E::NAME));
     }
 }
 
@@ -725,6 +773,7 @@ fn c20_concat(out: &mut Out, tier: &str, rng: &mut Rng) {
 
 pub fn c20(out: &mut Out, tier: &str, rng: &mut Rng) {
     for_all_est!(c20_est, out, tier, rng);
+    for_all_est!(c20_long_nan, out, tier, rng);
     for_all_pair!(c20_pair, out, tier, rng);
     c20_concat(out, tier, rng);
     // Quantile: collect is not implemented for it; estimate() = quantile()
@@ -767,6 +816,9 @@ pub fn replay_tree(out: &mut Out, rng: &mut Rng, ty: &str, tokens: &[String]) ->
         "M6" => crate::props_mom::merged::<M6>(out, &t, Trace::All, rng, &all),
         "M8" => crate::props_mom::merged::<M8>(out, &t, Trace::All, rng, &all),
         "M10" => crate::props_mom::merged::<M10>(out, &t, Trace::All, rng, &all),
+        "M16" => crate::props_mom::merged::<M16>(out, &t, Trace::All, rng, &all),
+        "M13" => crate::props_mom::merged::<M13>(out, &t, Trace::All, rng, &all),
+        "M3" => crate::props_mom::merged::<M3>(out, &t, Trace::All, rng, &all),
         "M12" => crate::props_mom::merged::<M12>(out, &t, Trace::All, rng, &all),
         "M9" => crate::props_mom::merged::<M9>(out, &t, Trace::All, rng, &all),
         "M7" => crate::props_mom::merged::<M7>(out, &t, Trace::All, rng, &all),
@@ -790,6 +842,9 @@ pub fn replay_data(out: &mut Out, rng: &mut Rng, ty: &str, data: &[f64]) -> bool
         "M6" => replay_est::<M6>(out, rng, data),
         "M8" => replay_est::<M8>(out, rng, data),
         "M10" => replay_est::<M10>(out, rng, data),
+        "M16" => replay_est::<M16>(out, rng, data),
+        "M13" => replay_est::<M13>(out, rng, data),
+        "M3" => replay_est::<M3>(out, rng, data),
         "M12" => replay_est::<M12>(out, rng, data),
         "M9" => replay_est::<M9>(out, rng, data),
         "M7" => replay_est::<M7>(out, rng, data),
